@@ -265,6 +265,30 @@ func c16Append(r *Run, roots, appended []types.Hash256, class string) {
 		if !ok {
 			r.violate("c16.append-v2", "rhp2.VerifyAppendProof rejects the honest proof (n=%d)", n)
 		}
+		// the same corruptions for the v2 verifier: a tree hash, the appended root, the new root, the old root
+		chk2 := func(sub []types.Hash256, app, o, nw types.Hash256, what string) {
+			ok := rhp2.VerifyAppendProof(n, sub, app, o, nw)
+			r.emit(true, class+"/v2-"+what, "c16.verify_append", cat([]string{hx(n)}, hashToks(sub), []string{hb(app[:]), hb(o[:]), hb(nw[:])}), []string{hbool(ok)})
+			if ok {
+				r.violate("c16.append-v2-"+what, "rhp2.VerifyAppendProof accepts a corrupted %s (n=%d)", what, n)
+			}
+		}
+		for i := range sub {
+			p := append([]types.Hash256(nil), sub...)
+			p[i][5] ^= 1
+			chk2(p, appended[0], oldRoot, newRoot, "subtree-root")
+		}
+		a := appended[0]
+		a[5] ^= 1
+		chk2(sub, a, oldRoot, newRoot, "datum")
+		b = newRoot
+		b[1] ^= 1
+		chk2(sub, appended[0], oldRoot, b, "new-root")
+		if n > 0 {
+			b = oldRoot
+			b[1] ^= 1
+			chk2(sub, appended[0], b, newRoot, "old-root")
+		}
 	}
 }
 
